@@ -32,7 +32,12 @@ REGISTRY = dict(
           "of exp(-i t_k H_k)-evolution unchanged), propagator_entrywise_conj / negation_is_time_reversal (exp(-it conj H) = "
           "conj exp(+itH): negation = time reversal), negation_invariant_of_real_up_to_diagonal (sufficient condition: H_k real "
           "up to one diagonal unitary, i.e. constant phase), exp_smul_of_mul_self_eq_one and negation_not_an_invariance (exactly "
-          "evaluated Hermitian 2x2 two-step instance: ground-state weight 4385/15625 vs 13985/15625). Not proved: register "
+          "evaluated Hermitian 2x2 two-step instance: ground-state weight 4385/15625 vs 13985/15625). Props/C29ExpLink.lean "
+          "(audited on every run) bridges the two: C is a LawfulCx scalar, tree vectors over C are functions on a 2^n-element "
+          "index type, hamMatrix_shift transports phase_offset_is_conjugation to dense matrices (H(phi+theta) = D H(phi) D^dag), "
+          "hence ideal_results_invariant_under_phase_offset / ideal_energy_invariant_under_phase_offset (the modelled emu-sv "
+          "Hamiltonian, any qubit number, any steps: all |psi_s|^2 and energies of prod_k exp(-i t_k H_k)|g..g> are unchanged by "
+          "a common offset) and hamMatrix_neg / ideal_negation_is_time_reversal. Not proved: register "
           "isometries and (de)serialisation "
           "(Pulser's computation: metamorphic checks through real pulser Registers/Sequences), emu-mps (validated end to end)."),
     note=("Trusted: Lean kernel + propext/Classical.choice/Quot.sound; Mathlib; Model.SvOps tied to the code by C06's "
@@ -44,7 +49,10 @@ REGISTRY = dict(
 
 PROP_MODULE = "EmuVerif.Props.C29"
 AUDIT = "Audit/C29.lean"
-EXTRA_STAGES = [("EmuVerif.Props.C29Exp", "Audit/C29Exp.lean")]    # ideal propagator exp(-itH); built + audited on every run
+# ideal propagator exp(-itH): Props/C29Exp.lean (abstract matrices) and Props/C29ExpLink.lean (its instantiation at the modelled
+# emu-sv Hamiltonian; imports C29Exp). One stage on every run: building the bridge builds both, the forbidden-token grep follows the
+# import closure, and Audit/C29ExpLink.lean lists the theorems of BOTH modules (one Mathlib load; Audit/C29Exp.lean = C29Exp alone).
+EXTRA_STAGES = [("EmuVerif.Props.C29ExpLink", "Audit/C29ExpLink.lean")]
 TOL_H = 1e-12
 # calibrated on the clean tree (270 metamorphic pairs, seeds 0-2 + 3 extra streams): emu-sv pairs differ by <= 1.6e-7 (energy,
 # relative; occupations <= 2e-9) whatever krylov_tolerance is, emu-mps (precision 1e-10) by <= 4.4e-5, emu-mps vs expm <= 5e-5
@@ -278,7 +286,8 @@ def check(rep: Report, tier: str, seed: int) -> None:
                 "atoms (min distance 5 um), 1-3 constant pulses, random rotation/translation/reflection, abstract-repr round trip")
     rep.assumptions = [
         "Props/C29.lean: theorems for every polynomial in the modelled emu-sv H (what a truncated Taylor/Krylov step is); the ideal "
-        "matrix exponential is covered by Props/C29Exp.lean for abstract complex matrices H, H' = V H V^-1 (see EXTRA_STAGES)",
+        "matrix exponential is covered by Props/C29Exp.lean for abstract complex matrices H, H' = V H V^-1 and by "
+        "Props/C29ExpLink.lean for the modelled Hamiltonian (see EXTRA_STAGES)",
         "register isometries and (de)serialisation are Pulser's computation: metamorphic tests only",
         "the clause 'negating all phases' of the property is false in general (time reversal); checked only where it is an "
         "equivalence (constant phase); otherwise the run is compared with an independent scipy expm reference",
